@@ -2,13 +2,18 @@
 
 package mqtt
 
+// Thin exported wrappers around internals that the verification oracles need, one file per group.
+// The files are injected by a go build overlay; they never exist in the repository.  If a file of
+// this group does not compile against the tree under check (an internal was renamed or changed
+// shape), the coordinator swaps in the stub of the same name from overlay/mqtt_stubs, the flag
+// below becomes false and the white-box part that needs the group is skipped and reported as such.
+
 import "io"
 
-// Thin exported wrappers around internals that the verification oracles need.
-// This file is injected by a go build overlay; it never exists in the repository.
+const VerifHasCodec = true
 
 func VerifPack(packetType byte, contents ...[]byte) []byte { return pack(packetType, contents...) }
-func VerifRemainingLength(n int) []byte                   { return remainingLength(n) }
+func VerifRemainingLength(n int) []byte                    { return remainingLength(n) }
 
 func VerifReadPacket(r io.Reader) (byte, byte, []byte, error) {
 	t, f, c, err := readPacket(r)
@@ -30,8 +35,6 @@ func VerifPackPubRec(id uint16) []byte  { return (&pktPubRec{ID: id}).Pack() }
 func VerifPackPubRel(id uint16) []byte  { return (&pktPubRel{ID: id}).Pack() }
 func VerifPackPubComp(id uint16) []byte { return (&pktPubComp{ID: id}).Pack() }
 
-// VerifParse runs the parser of the given inbound packet type; it returns a rendering of the
-// parsed packet and the error.
 func VerifParse(ptype byte, flag byte, contents []byte) (any, error) {
 	switch packetType(ptype << 4) {
 	case packetConnAck:
@@ -59,42 +62,3 @@ func VerifParse(ptype byte, flag byte, contents []byte) (any, error) {
 	}
 	return nil, nil
 }
-
-func VerifNewTopicFilter(filter string) ([]string, error) {
-	f, err := newTopicFilter(filter)
-	return []string(f), err
-}
-
-func VerifFilterMatch(filter []string, topic string) bool { return topicFilter(filter).Match(topic) }
-
-func VerifWrapError(err error, failure string) error { return wrapError(err, failure) }
-func VerifWrapErrorf(err error, format string, a ...interface{}) error {
-	return wrapErrorf(err, format, a...)
-}
-func VerifWrapErrorWithRetry(err error, failure string) error {
-	return wrapErrorWithRetry(err, func(ctx contextT, cli *BaseClient) error { return nil }, failure)
-}
-
-func VerifApplySubs(calls [][]Subscription, unsub [][]string, order []bool) []Subscription {
-	var d subscriptions
-	si, ui := 0, 0
-	for _, isSub := range order {
-		if isSub {
-			subscriptions(calls[si]).applyTo(&d)
-			si++
-		} else {
-			unsubscriptions(unsub[ui]).applyTo(&d)
-			ui++
-		}
-	}
-	return []Subscription(d)
-}
-
-func VerifCloneMessage(m *Message) *Message { return m.clone() }
-
-// VerifIDLast exposes the packet identifier counter.
-func VerifSetIDLast(c *BaseClient, v uint32) { c.idLast = v }
-func VerifNewID(c *BaseClient) uint16       { return c.newID() }
-
-// VerifNewRequestTimeoutError builds the error that requestContext.Err returns (its embedded field is unexported).
-func VerifNewRequestTimeoutError(err error) error { return &RequestTimeoutError{err} }
